@@ -53,6 +53,9 @@ def fault_text(f, spec, at, full):
     if k == 'absent-sheet-with-name':
         # one formula that uses a defined name of its own book AND a sheet that book does not have (fixed shapes only)
         return '=SUM(%s)+%s!B%d' % (spec['names'][0]['name'], ['Old', 'Gone', 'zz9'][v % 3], 1 + v % 2)
+    if k == 'undefined-in-name':
+        # BADNAME_x is a defined name of this workbook whose own definition uses a name nobody defines
+        return ['=BADNAME_x+1', '=BADNAME_x', '=SUM(BADNAME_x,1)'][v % 3]
     if k == 'absent-book':
         return "='[nofile%d.xlsx]S1'!B%d" % (v % 2, 1 + v % 3)
     if k == 'unreadable-book':
@@ -158,18 +161,23 @@ def render_dict(sp):
         if 'raw' in c:
             b, s, r, cc = c['at']
             d[G.qual_full(sp, b, s) + G.a1(r, cc)] = fault_text(c['raw'], sp, c['at'], True)
+            if c['raw']['kind'] == 'undefined-in-name':
+                d['BADNAME_x'] = '=NO_SUCH_BASE*2'
     return d
 
 
-def write_files(sp, dirpath):
+def write_files(sp, dirpath, links=None):
     import openpyxl
     base = {'books': sp['books'], 'names': sp.get('names', []), 'cells': [c for c in sp['cells'] if 'raw' not in c]}
-    paths = G.write_files(base, dirpath)
+    paths = G.write_files(base, dirpath, links=links)
     for b, p in enumerate(paths):
         raws = [c for c in sp['cells'] if 'raw' in c and c['at'][0] == b]
         if not raws:
             continue
         wb = openpyxl.load_workbook(p)
+        if any(c['raw']['kind'] == 'undefined-in-name' for c in raws):
+            from openpyxl.workbook.defined_name import DefinedName
+            wb.defined_names['BADNAME_x'] = DefinedName('BADNAME_x', attr_text='NO_SUCH_BASE*2')
         for c in raws:
             ws = wb[sp['books'][b]['sheets'][c['at'][1]]]
             ws.cell(row=c['at'][2], column=c['at'][3], value=fault_text(c['raw'], sp, c['at'], False))
@@ -180,7 +188,7 @@ def write_files(sp, dirpath):
 def check_spec(case):
     spec, faults, path = case['spec'], case['faults'], case['path']
     if path == 'dict':
-        faults = [f for f in faults if f['kind'] in ('unknown-fn', 'undefined-name', 'ref-literal', 'intercepted-pair')]
+        faults = [f for f in faults if f['kind'] in ('unknown-fn', 'undefined-name', 'ref-literal', 'intercepted-pair')]  # (the others need complete(), which from_dict does not run)
     if not faults:
         return R(labels=['skipped:no-fault-for-path'])
     sp, fkeys = inject(spec, faults)
@@ -206,7 +214,7 @@ def check_spec(case):
             sol = m.calculate()
         else:
             with G.workdir() as d:
-                paths = write_files(sp, d)
+                paths = write_files(sp, d, links=case.get('links'))
                 make_bad_files(d, faults)
                 # first_only: only the first book is given; the others (and their faults) are reached through its references
                 m = sut.ExcelModel().loads(*(paths[:1] if first_only else paths)).finish()
@@ -301,14 +309,14 @@ def check_case(case):
 def _fault():
     return st.builds(lambda kind, variant, replace, target, loc: {'kind': kind, 'variant': variant, 'replace': replace, 'target': target, 'loc': loc},
                      st.sampled_from(['unknown-fn', 'unknown-fn', 'absent-sheet', 'absent-book', 'unreadable-book', 'undefined-name', 'ref-literal',
-                                      'absent-spill', 'intercepted-pair']),
+                                      'absent-spill', 'intercepted-pair', 'undefined-in-name']),
                      st.integers(0, 23), st.booleans(), st.integers(0, 30), st.tuples(st.integers(0, 3), st.integers(0, 3), st.integers(0, 9)).map(list))
 
 
 def _specs(tier):
-    return st.builds(lambda spec, faults, path, fo: {'k': 'spec', 'spec': spec, 'faults': faults, 'path': path, 'first_only': fo},
+    return st.builds(lambda spec, faults, path, fo, lk: {'k': 'spec', 'spec': spec, 'faults': faults, 'path': path, 'first_only': fo, 'links': lk},
                      G.specs(tier, max_books=2, wholecols=False, errors=False), st.lists(_fault(), min_size=1, max_size=3),
-                     st.sampled_from(['file', 'file', 'dict']), st.booleans())
+                     st.sampled_from(['file', 'file', 'dict']), st.booleans(), st.one_of(st.none(), st.none(), st.integers(0, 7)))
 
 
 def _linked_name_cases():
